@@ -524,3 +524,7 @@ func (n *Node) canonTo(b *strings.Builder) {
 		b.WriteByte('}')
 	}
 }
+
+// stripRoot gives the members of a container as an array (the root itself is
+// left out of a property asked of what is nested in it).
+func (n *Node) stripRoot() *Node { return &Node{K: kArr, A: n.A} }
